@@ -8,7 +8,7 @@ import itertools
 from ..astutil import inside
 from ..cfg import CFG, cond_strings
 from ..core import AnalysisError, walk_own
-from ..defuse import DefUse, Terms, show
+from ..defuse import DefUse, Terms, show, walk_term
 from ..events import container_events, root_name
 from ..paths import path_variants
 from ..tutil import TTUnknown, callee_of, select_ifexp, simp, tt_eval
@@ -57,6 +57,7 @@ def run(ctx):
         _row_iterator(ctx, prog.func(q))
     _table_merger(ctx, prog.func(
         "mokapot.streaming.MergedTabularDataReader.get_row_iterator"))
+    _merged_entry_points(ctx)
 
 
 
@@ -427,6 +428,39 @@ def _row_iterator(ctx, f):
     ctx.check(ok, "C14a-complete-traversal", f,
               "row iterator yields every record of every chunk", why,
               node=f.node)
+
+
+def _merged_entry_points(ctx):
+    """read() and get_chunked_data_iterator() of the merged reader hand out
+    rows only from get_row_iterator(): the merge order and the sortedness
+    check live there, so a path that reads the inputs directly skips both."""
+    prog = ctx.prog
+    SELF = ("param", "self")
+    for name in ("read", "get_chunked_data_iterator"):
+        f = prog.func("mokapot.streaming.MergedTabularDataReader." + name)
+        T = Terms(DefUse(prog, f))
+        outs = []
+        for n in walk_own(f.node):
+            if isinstance(n, (ast.Return, ast.Yield)) and \
+                    n.value is not None:
+                outs.append((n, T.of(n.value)))
+            elif isinstance(n, ast.YieldFrom):
+                outs.append((n, T.of(n.value)))
+        ctx.require(bool(outs), f"{f.qual}: hands out nothing")
+        for n, t in outs:
+            parts = list(walk_term(t))
+            merged = any(isinstance(x, tuple) and x[:3] == (
+                "mcall", SELF, "get_row_iterator") for x in parts)
+            direct = any(isinstance(x, tuple) and x == (
+                "attr", SELF, "readers") for x in parts)
+            ctx.check(merged and not direct, "C14b-entry-points-merge", f,
+                      f"{name}() hands out rows of the merged stream only",
+                      f"line {n.lineno}: {show(t, 110)} "
+                      + ("is read from the input readers directly"
+                         if direct else "does not come from "
+                         "get_row_iterator()")
+                      + ": neither merged nor checked for sortedness",
+                      node=n)
 
 
 def _table_merger(ctx, f):
